@@ -336,6 +336,30 @@ func runC04(c *Ctx) {
 		c.Remark(fmt.Sprintf("section %s done at %.1fs", what, time.Since(t0).Seconds()))
 	}
 
+	// ---- 0. worked examples of the standards (transcribed from ISO/IEC 18004 Annex I, version 1-M "01234567",
+	//         and ISO/IEC 16022 "123456" in a 10x10 symbol); they also agree with the reference arithmetic above ----
+	for _, sv := range []struct {
+		f        *c04Field
+		data, ec []int
+	}{
+		{c04Fields[2], []int{0x10, 0x20, 0x0C, 0x56, 0x61, 0x80, 0xEC, 0x11, 0xEC, 0x11, 0xEC, 0x11, 0xEC, 0x11, 0xEC, 0x11},
+			[]int{0xA5, 0x24, 0xD4, 0xC1, 0xED, 0x36, 0xC7, 0x87, 0x2C, 0x55}},
+		{c04Fields[3], []int{142, 164, 186}, []int{114, 25, 5, 88, 102}},
+	} {
+		word := append(append([]int(nil), sv.data...), make([]int, len(sv.ec))...)
+		want := append(append([]int(nil), sv.data...), sv.ec...)
+		out, _ := c04Encode(reedsolomon.NewReedSolomonEncoder(sv.f.f), word, len(sv.ec))
+		c.Cmp("std", fmt.Sprintf("c04 enc %s %s %d", sv.f.name, ints(word), len(sv.ec)), out)
+		c.Oracle("std", out == "ok "+ints(want), "std-vector", fmt.Sprintf("enc %s %s %d", sv.f.name, ints(word), len(sv.ec)), "go="+out+" standard="+ints(want))
+		c.Oracle("std", c04Eq(sv.f.refEncode(sv.data, sv.f.refGenerator(len(sv.ec))), want), "std-vector-ref", "reference arithmetic vs standard "+sv.f.name, "")
+		c04DecodeCase(c, sv.f, want, want, len(sv.ec), 0, "std")
+		for p := 0; p < len(want); p++ {
+			w := append([]int(nil), want...)
+			w[p] ^= 0x5A
+			c04DecodeCase(c, sv.f, want, w, len(sv.ec), 1, "std")
+		}
+	}
+
 	// ---- 1. tables ----
 	for _, f := range all {
 		par := Safe(func() string {
